@@ -550,18 +550,14 @@ func (h *c13H) doc(body []byte, what string, classes []string, splits []uint, me
 				ok, msg = false, fmt.Sprintf("upgrade in one run and split at version %d give different documents", k)
 			} else {
 				h.out.Class("split-agree-new")
+				if c13HasWholeFloat(top) {
+					// fix bb8b603: a whole float where an int is expected is
+					// converted, in one run as in several
+					h.out.Class("split-whole-float-agree")
+				}
 			}
 		case one.cls == two:
 			h.out.Class("split-agree-" + c13ClsName[two])
-		case one.cls == 0 && two == 2 && c13HasWholeFloat(top) &&
-			strings.Contains(fmt.Sprint(one.err), "unexpected type") && strings.Contains(fmt.Sprint(one.err), "float64"):
-			// yaml prints 2.0 as 2, which is read back as an int: a value a step
-			// rejects in memory is accepted after a round trip through the file.
-			// A known finding with its own key; any other disagreement keeps the
-			// general key.
-			h.out.Class("split-whole-float-retyped")
-			ok, key = false, "path-dependent-whole-float"
-			msg = fmt.Sprintf("one run fails on a whole-valued float (%v), split at version %d succeeds", one.err, k)
 		default:
 			ok, msg = false, fmt.Sprintf("one run: %s, split at version %d: %s", c13ClsName[one.cls], k, c13ClsName[two])
 		}
